@@ -122,11 +122,11 @@ Definition set_device_name_op lg c now (name : bytes) :=
 Definition get_schedules_op lg c now := type1_op lg c now T_GET_SCHEDULES_PACKET (Ok []).
 Definition delete_schedule_op lg c now (schedule_id : bytes) :=
   type1_op lg c now T_DELETE_SCHEDULE_PACKET (Ok [AStr schedule_id]).
-Definition create_schedule_op lg c now (day_base : Z) (start_time end_time : bytes) (days : list day) :=
+Definition create_schedule_op lg c now (day_base : Z) (start_time end_time : bytes) (days : days_arg) :=
   type1_op lg c now T_CREATE_SCHEDULE_PACKET
     (do st <- time_to_hexadecimal_timestamp lg day_base start_time ;;
      do en <- time_to_hexadecimal_timestamp lg day_base end_time ;;
-     do wd <- (match days with [] => Ok NON_RECURRING_SCHEDULE | _ => weekdays_to_hexadecimal (ASet days) end) ;;
+     do wd <- (match days with ASet [] | ASeq [] => Ok NON_RECURRING_SCHEDULE | _ => weekdays_to_hexadecimal days end) ;;   (* len(days) > 0 *)
      do rec <- format T_SCHEDULE_CREATE_DATA_FORMAT [AStr wd; AStr st; AStr en] ;;
      Ok [AStr rec]).
 
